@@ -1953,6 +1953,9 @@ func (s *Spans) UnmarshalBinary(b []byte) error {
 		*s = Spans{}
 		return nil
 	}
+	if int64(numSpans) > int64(buf.Len())/16 {
+		return fmt.Errorf("span encoding claims %d spans but holds only %d bytes", numSpans, buf.Len())
+	}
 	*s = make(Spans, int(numSpans))
 	for i := uint32(0); i < numSpans; i++ {
 		if err := binary.Read(buf, binary.LittleEndian, &((*s)[i][2])); err != nil {
